@@ -34,7 +34,22 @@ CONSTANTS Procs,      \* process ids (integers 1..n)
           Keys,       \* keys
           KeyPlans,   \* set of functions Procs -> Seq(Keys): the keys each process Gets, in order
           ZeroKeySets,\* set of subsets of Keys: for which keys the constructor returns the ZERO value of V
-          PanicKeySets\* set of subsets of Keys: for which keys the constructor invocation PANICS
+          PanicKeySets,\* set of subsets of Keys: for which keys the constructor invocation PANICS
+          Dep,        \* Dep[k]: the key whose value the constructor of k fetches with a NESTED Get
+                      \* before it produces its own value, NoDep = none (one level, no cycles)
+          NCPU,       \* the number of processors (runtime.GOMAXPROCS): a constant of the ENVIRONMENT.
+                      \* The design does not mention it, and no property may depend on it.
+          Limiter     \* FALSE: the design as it is.  TRUE: the rejected design alternative "at most
+                      \* NCPU constructions at a time": Get takes one of NCPU slots after the
+                      \* fast-track miss and gives it back when it returns -- so the slot is also
+                      \* held while merely WAITING for somebody else's construction.  TLC refutes it
+                      \* against IndependentKeys as soon as NCPU is smaller than the number of callers
+                      \* (configuration OnceLimiter*.cfg); with NCPU large it passes, i.e. whether
+                      \* the property holds would depend on the environment.
+NoDep == "-"
+ASSUME /\ NCPU \in Nat \ {0} /\ Limiter \in BOOLEAN
+       /\ \A k \in Keys : Dep[k] \in Keys \cup {NoDep} /\ Dep[k] # k
+       /\ \A k \in Keys : Dep[k] # NoDep => Dep[Dep[k]] = NoDep
 
 VARIABLES pk,         \* the keys whose constructor panics / Goexits (chosen in Init, disjoint from zk):
                       \* the environment may fail.  The invocation then ends WITHOUT a result,
@@ -61,9 +76,15 @@ VARIABLES pk,         \* the keys whose constructor panics / Goexits (chosen in 
           ncons,      \* ncons[k]: number of constructor invocations for k
           conval,     \* conval[k]: set of values constructed for k
           nextv,      \* next fresh value (the constructor returns a fresh object per call)
-          rets        \* rets[p]: sequence of values returned by p's Gets
+          rets,       \* rets[p]: sequence of values returned by p's Gets
+          nest,       \* nest[p]: 1 while p is inside the nested Get its constructor makes, else 0
+          oldr,       \* oldr[p]: the loader of p's outer Get while nest[p] = 1
+          nres,       \* nres[p]: the <<key, value>> pairs the nested Gets of p returned
+          slots,      \* Limiter only: slots taken
+          hold        \* Limiter only: hold[p][d]: p's Get at nesting depth d holds a slot
 
-vars == <<plan, zk, pk, failed, calls, pc, map, chan, cached, lkey, ldr, tmp, val, ncons, conval, nextv, rets>>
+env == <<nest, oldr, nres, slots, hold>>
+vars == <<plan, zk, pk, failed, calls, pc, map, chan, cached, lkey, ldr, tmp, val, ncons, conval, nextv, rets, env>>
 
 Zero == 0
 
@@ -71,6 +92,12 @@ Init == /\ plan \in KeyPlans
         /\ zk \in ZeroKeySets
         /\ pk \in PanicKeySets /\ pk \cap zk = {}
         /\ failed = {}
+        /\ ((\E k \in Keys : Dep[k] # NoDep) => pk = {})   \* faults and nesting are explored separately
+        /\ nest = [p \in Procs |-> 0]
+        /\ oldr = [p \in Procs |-> 0]
+        /\ nres = [p \in Procs |-> <<>>]
+        /\ slots = 0
+        /\ hold = [p \in Procs |-> [d \in 0..1 |-> FALSE]]
         /\ calls = [p \in Procs |-> 0]
         /\ pc = [p \in Procs |-> "idle"]
         /\ map = [k \in Keys |-> 0]
@@ -83,7 +110,8 @@ Init == /\ plan \in KeyPlans
         /\ nextv = 1
         /\ rets = [p \in Procs |-> <<>>]
 
-Key(p) == plan[p][calls[p]]
+OuterKey(p) == plan[p][calls[p]]
+Key(p) == IF nest[p] = 1 THEN Dep[OuterKey(p)] ELSE OuterKey(p)
 Goto(p, l) == pc' = [pc EXCEPT ![p] = l]
 
 (* Get(k) is invoked. *)
@@ -91,19 +119,31 @@ Start(p) ==
     /\ pc[p] = "idle" /\ calls[p] < Len(plan[p])
     /\ calls' = [calls EXCEPT ![p] = @ + 1]
     /\ Goto(p, "load")
-    /\ UNCHANGED <<plan, zk, pk, failed, map, chan, cached, lkey, ldr, tmp, val, ncons, conval, nextv, rets>>
+    /\ UNCHANGED <<env, plan, zk, pk, failed, map, chan, cached, lkey, ldr, tmp, val, ncons, conval, nextv, rets>>
 
 (* Step 1, the fast track. *)
 LoadHit(p) ==
     /\ pc[p] = "load" /\ map[Key(p)] # 0
     /\ ldr' = [ldr EXCEPT ![p] = map[Key(p)]]
     /\ Goto(p, "call")
-    /\ UNCHANGED <<plan, zk, pk, failed, calls, map, chan, cached, lkey, tmp, val, ncons, conval, nextv, rets>>
+    /\ UNCHANGED <<env, plan, zk, pk, failed, calls, map, chan, cached, lkey, tmp, val, ncons, conval, nextv, rets>>
 
 LoadMiss(p) ==
     /\ pc[p] = "load" /\ map[Key(p)] = 0
+    /\ Goto(p, IF Limiter THEN "acq" ELSE "miss")
+    /\ UNCHANGED <<env, plan, zk, pk, failed, calls, map, chan, cached, lkey, ldr, tmp, val, ncons, conval, nextv, rets>>
+
+(* Limiter design only: take one of the NCPU slots (blocks while none is free). *)
+AcquireSlot(p) ==
+    /\ pc[p] = "acq" /\ slots < NCPU
+    /\ slots' = slots + 1
+    /\ hold' = [hold EXCEPT ![p][nest[p]] = TRUE]
     /\ Goto(p, "miss")
-    /\ UNCHANGED <<plan, zk, pk, failed, calls, map, chan, cached, lkey, ldr, tmp, val, ncons, conval, nextv, rets>>
+    /\ UNCHANGED <<nest, oldr, nres, plan, zk, pk, failed, calls, map, chan, cached, lkey, ldr, tmp, val, ncons, conval, nextv, rets>>
+(* ... and give it back when the Get at depth d ends (defer). *)
+ReleaseSlot(p, d) ==
+    /\ slots' = IF hold[p][d] THEN slots - 1 ELSE slots
+    /\ hold' = [hold EXCEPT ![p][d] = FALSE]
 
 (* Step 2.  The process allocates its own channel (holding the token) and     *)
 (* closure; LoadOrStore keeps it only if the key is still absent, otherwise    *)
@@ -121,7 +161,7 @@ LoadOrStore(p) ==
          ELSE /\ ldr' = [ldr EXCEPT ![p] = map[k]]
               /\ UNCHANGED <<chan, cached, lkey, map>>
     /\ Goto(p, "call")
-    /\ UNCHANGED <<plan, zk, pk, failed, calls, tmp, val, ncons, conval, nextv, rets>>
+    /\ UNCHANGED <<env, plan, zk, pk, failed, calls, tmp, val, ncons, conval, nextv, rets>>
 
 (* The loader call.  `_, ok := <-done` has three outcomes. *)
 HasToken(l)  == chan[l] = "token"
@@ -132,18 +172,31 @@ RecvToken(p) ==
     /\ pc[p] = "call" /\ HasToken(ldr[p])
     /\ chan' = [chan EXCEPT ![ldr[p]] = "empty"]
     /\ Goto(p, "construct")
-    /\ UNCHANGED <<plan, zk, pk, failed, calls, map, cached, lkey, ldr, tmp, val, ncons, conval, nextv, rets>>
+    /\ UNCHANGED <<env, plan, zk, pk, failed, calls, map, cached, lkey, ldr, tmp, val, ncons, conval, nextv, rets>>
 
 RecvClosed(p) ==
     /\ pc[p] = "call" /\ IsClosed(ldr[p])
     /\ Goto(p, "read")
-    /\ UNCHANGED <<plan, zk, pk, failed, calls, map, chan, cached, lkey, ldr, tmp, val, ncons, conval, nextv, rets>>
+    /\ UNCHANGED <<env, plan, zk, pk, failed, calls, map, chan, cached, lkey, ldr, tmp, val, ncons, conval, nextv, rets>>
 
 (* The user's constructor runs (c.new(key) with the key the loader captured)   *)
 (* and returns a fresh object -- or, for the keys in zk, the zero value of V.   *)
 (* Schedule replay parks goroutines here.                                      *)
+NeedsDep(p) == pc[p] = "construct" /\ nest[p] = 0 /\ Dep[lkey[ldr[p]]] # NoDep
+(* The constructor of k first fetches the value of Dep[k] with a nested Get:   *)
+(* the same goroutine runs a whole Get (of another key) while it holds k's     *)
+(* token.  Nothing in the design may make that wait for k.                     *)
+CallDep(p) ==
+    /\ NeedsDep(p) /\ lkey[ldr[p]] \notin pk
+    /\ nest' = [nest EXCEPT ![p] = 1]
+    /\ oldr' = [oldr EXCEPT ![p] = ldr[p]]
+    /\ Goto(p, "load")
+    /\ UNCHANGED <<nres, slots, hold, plan, zk, pk, failed, calls, map, chan, cached, lkey, ldr, tmp, val, ncons, conval, nextv, rets>>
+
 Construct(p) ==
-    /\ pc[p] = "construct" /\ lkey[ldr[p]] \notin pk
+    /\ \/ pc[p] = "construct" /\ ~NeedsDep(p)
+       \/ pc[p] = "construct2"
+    /\ lkey[ldr[p]] \notin pk
     /\ LET k == lkey[ldr[p]]
            v == IF k \in zk THEN Zero ELSE nextv IN
        /\ ncons' = [ncons EXCEPT ![k] = @ + 1]
@@ -151,7 +204,7 @@ Construct(p) ==
        /\ tmp' = [tmp EXCEPT ![p] = v]
     /\ nextv' = nextv + 1
     /\ Goto(p, "assign")
-    /\ UNCHANGED <<plan, zk, pk, failed, calls, map, chan, cached, lkey, ldr, val, rets>>
+    /\ UNCHANGED <<env, plan, zk, pk, failed, calls, map, chan, cached, lkey, ldr, val, rets>>
 
 (* The constructor invocation panics (or calls runtime.Goexit): it counts as   *)
 (* an invocation, yields no value, and unwinds the loader and Get of p -- the  *)
@@ -165,33 +218,47 @@ ConstructPanics(p) ==
     /\ failed' = failed \cup {ldr[p]}
     /\ rets' = [rets EXCEPT ![p] = Append(@, Panicked)]
     /\ Goto(p, "idle")
-    /\ UNCHANGED <<plan, zk, pk, calls, map, chan, cached, lkey, ldr, tmp, val, conval>>
+    /\ ReleaseSlot(p, 0)
+    /\ UNCHANGED <<nest, oldr, nres, plan, zk, pk, calls, map, chan, cached, lkey, ldr, tmp, val, conval>>
 
 StoreCached(p) ==
     /\ pc[p] = "assign"
     /\ cached' = [cached EXCEPT ![ldr[p]] = tmp[p]]
     /\ Goto(p, "close")
-    /\ UNCHANGED <<plan, zk, pk, failed, calls, map, chan, lkey, ldr, tmp, val, ncons, conval, nextv, rets>>
+    /\ UNCHANGED <<env, plan, zk, pk, failed, calls, map, chan, lkey, ldr, tmp, val, ncons, conval, nextv, rets>>
 
 Close(p) ==
     /\ pc[p] = "close"
     /\ chan' = [chan EXCEPT ![ldr[p]] = "closed"]
     /\ Goto(p, "read")
-    /\ UNCHANGED <<plan, zk, pk, failed, calls, map, cached, lkey, ldr, tmp, val, ncons, conval, nextv, rets>>
+    /\ UNCHANGED <<env, plan, zk, pk, failed, calls, map, cached, lkey, ldr, tmp, val, ncons, conval, nextv, rets>>
 
 ReadCached(p) ==
     /\ pc[p] = "read"
     /\ val' = [val EXCEPT ![p] = cached[ldr[p]]]
     /\ Goto(p, "ret")
-    /\ UNCHANGED <<plan, zk, pk, failed, calls, map, chan, cached, lkey, ldr, tmp, ncons, conval, nextv, rets>>
+    /\ UNCHANGED <<env, plan, zk, pk, failed, calls, map, chan, cached, lkey, ldr, tmp, ncons, conval, nextv, rets>>
 
 Return(p) ==
-    /\ pc[p] = "ret"
+    /\ pc[p] = "ret" /\ nest[p] = 0
     /\ rets' = [rets EXCEPT ![p] = Append(@, val[p])]
     /\ Goto(p, "idle")
-    /\ UNCHANGED <<plan, zk, pk, failed, calls, map, chan, cached, lkey, ldr, tmp, val, ncons, conval, nextv>>
+    /\ ReleaseSlot(p, 0)
+    /\ UNCHANGED <<nest, oldr, nres, plan, zk, pk, failed, calls, map, chan, cached, lkey, ldr, tmp, val, ncons, conval, nextv>>
 
-Step(p) == \/ Start(p) \/ LoadHit(p) \/ LoadMiss(p) \/ LoadOrStore(p)
+(* The nested Get returns into the constructor of the outer key, which goes on. *)
+ReturnDep(p) ==
+    /\ pc[p] = "ret" /\ nest[p] = 1
+    /\ nres' = [nres EXCEPT ![p] = Append(@, <<Key(p), val[p]>>)]
+    /\ nest' = [nest EXCEPT ![p] = 0]
+    /\ ldr' = [ldr EXCEPT ![p] = oldr[p]]
+    /\ oldr' = [oldr EXCEPT ![p] = 0]
+    /\ Goto(p, "construct2")
+    /\ ReleaseSlot(p, 1)
+    /\ UNCHANGED <<plan, zk, pk, failed, calls, map, chan, cached, lkey, tmp, val, ncons, conval, nextv, rets>>
+
+Step(p) == \/ Start(p) \/ LoadHit(p) \/ LoadMiss(p) \/ AcquireSlot(p) \/ LoadOrStore(p)
+           \/ CallDep(p) \/ ReturnDep(p)
            \/ RecvToken(p) \/ RecvClosed(p) \/ Construct(p) \/ ConstructPanics(p) \/ StoreCached(p)
            \/ Close(p) \/ ReadCached(p) \/ Return(p)
 
@@ -207,12 +274,15 @@ Loaders == 1..Len(chan)
 InGet(p) == pc[p] # "idle"
 Finished(p) == pc[p] = "idle" /\ calls[p] = Len(plan[p])
 AllFinished == \A p \in Procs : Finished(p)
-Holder(l) == {p \in Procs : pc[p] \in {"construct", "assign", "close"} /\ ldr[p] = l}
+Holder(l) == {p \in Procs : \/ pc[p] \in {"construct", "construct2", "assign", "close"} /\ ldr[p] = l
+                            \/ nest[p] = 1 /\ oldr[p] = l}
 
 TypeOK ==
     /\ plan \in KeyPlans /\ zk \in ZeroKeySets /\ pk \in PanicKeySets /\ failed \subseteq 1..Len(chan)
     /\ \A p \in Procs : calls[p] \in 0..Len(plan[p])
-    /\ \A p \in Procs : pc[p] \in {"idle", "load", "miss", "call", "construct", "assign", "close", "read", "ret"}
+    /\ \A p \in Procs : pc[p] \in {"idle", "load", "acq", "miss", "call", "construct", "construct2", "assign", "close", "read", "ret"}
+    /\ \A p \in Procs : nest[p] \in 0..1 /\ oldr[p] \in 0..Len(chan)
+    /\ slots \in 0..NCPU /\ (~Limiter => slots = 0)
     /\ \A k \in Keys : map[k] \in 0..Len(chan)
     /\ Len(cached) = Len(chan) /\ Len(lkey) = Len(chan)
     /\ \A l \in Loaders : chan[l] \in {"token", "empty", "closed"} /\ lkey[l] \in Keys
@@ -254,14 +324,13 @@ OnePanicPerKey == \A k \in Keys :
 Stuck(q) == Blocked(q) /\ ldr[q] \in failed
 WaitsOnlyOnSameKey ==
     \A q \in Procs : Blocked(q) =>
-        \/ \E r \in Procs \ {q} : r \in Holder(ldr[q]) /\ Key(r) = Key(q)
+        \/ \E r \in Procs \ {q} : r \in Holder(ldr[q]) /\ lkey[ldr[q]] = Key(q)
         \/ Stuck(q) /\ Key(q) \in pk
 
 IndependentKeys ==
     \A q \in Procs :
         (/\ InGet(q) /\ ~Stuck(q)
-         /\ \A r \in Procs \ {q} :
-               pc[r] \in {"construct", "assign", "close"} => Key(r) # Key(q))
+         /\ \A l \in Loaders : lkey[l] = Key(q) => Holder(l) \ {q} = {})
         => ENABLED Step(q)
 
 (* Design lemmas. *)
@@ -278,7 +347,10 @@ OneLoaderPerKey ==
     /\ \A l1, l2 \in Loaders : lkey[l1] = lkey[l2] => l1 = l2
     /\ \A k \in Keys : \A l \in Loaders : (map[k] = l) <=> (lkey[l] = k)
 
-LoaderKeyOK == \A p \in Procs : (pc[p] \notin {"idle", "load", "miss"}) => lkey[ldr[p]] = Key(p)
+LoaderKeyOK == \A p \in Procs : /\ ((pc[p] \notin {"idle", "load", "acq", "miss"}) => (lkey[ldr[p]] = Key(p)))
+                                 /\ ((nest[p] = 1) => (lkey[oldr[p]] = OuterKey(p)))
+(* a nested Get returns the value of its key, like any other Get *)
+NestedSameResult == \A p \in Procs : \A i \in 1..Len(nres[p]) : conval[nres[p][i][1]] = {nres[p][i][2]}
 
 (* The stored loader of a key is never replaced. *)
 MapStable == [][\A k \in Keys : map[k] # 0 => map'[k] = map[k]]_vars
